@@ -582,6 +582,23 @@ func hasCATXZeroAddenda(f *ach.File) bool {
 	return false
 }
 
+// hasCATXCountWithoutIndicator: a CTX / ATX entry whose name carries an addenda count above zero while its
+// AddendaRecordIndicator is 0 (valid only under UnequalAddendaCounts, and only without addenda records):
+// setBatchesFromJSON then sets the indicator to the count (SetCATXAddendaRecords), column 79 of the entry changes
+func hasCATXCountWithoutIndicator(f *ach.File) bool {
+	for _, b := range f.Batches {
+		if s := b.GetHeader().StandardEntryClassCode; s != ach.CTX && s != ach.ATX {
+			continue
+		}
+		for _, e := range b.GetEntries() {
+			if n, err := strconv.Atoi(e.CATXAddendaRecordsField()); err == nil && n > 0 && e.AddendaRecordIndicator == 0 {
+				return true
+			}
+		}
+	}
+	return false
+}
+
 // diffKey names the first difference between two renderings by record type and column.
 func diffKey(a, b string) (string, string) {
 	la, lb := strings.Split(a, "\n"), strings.Split(b, "\n")
@@ -643,9 +660,12 @@ func check(f *ach.File, label string, st *evalStats, tmpdir string, deep bool) [
 	}
 	catxZero := hasCATXZeroAddenda(f)
 	catxOffset := hasCATXOffsetEntry(f)
+	catxNoInd := hasCATXCountWithoutIndicator(f)
 	fail := func(path, key, what string) {
 		if catxOffset && (catxNameCols.MatchString(key) || key == "error") {
 			key = "json:catx:offset-entry-repacked"
+		} else if catxNoInd && key == "text-diff:rec6:col79" {
+			key = "json:catx:count-sets-indicator"
 		} else if catxZero && (catxNameCols.MatchString(key) || (key == "error" && strings.Contains(what, "AddendaCount"))) {
 			key = "json:catx:zero-addenda-records"
 		} else if !strings.HasPrefix(key, "json:") {
@@ -1188,6 +1208,8 @@ func cliCheck(bin, tmp string, f *ach.File, t1 string, tc testCase) (fails []fai
 			switch {
 			case hasCATXZeroAddenda(f) && catxNameCols.MatchString("text-diff:"+k):
 				k = "json:catx:zero-addenda-records"
+			case hasCATXCountWithoutIndicator(f) && k == "rec6:col79":
+				k = "json:catx:count-sets-indicator"
 			case !strings.HasPrefix(k, "json:"):
 				k = "cli:text-diff:" + k
 			}
